@@ -870,7 +870,7 @@ def run_backend(tier, seed, backend, n=None, nproc=16):
         for i, resp in zip(idx, resps):
             o = obs[i]
             diffs = np_compare(o, resp)
-            o["np_good"] = bool(resp.get("good"))
+            o["np_good"] = bool(resp.get("good")) and bool(resp.get("guardsOk", True))
             n_good += 1 if o["np_good"] else 0
             if diffs:
                 model_dis.append({"kind": "numpy", "recipe": o["recipe"], "diffs": diffs[:4]})
